@@ -161,9 +161,14 @@ def _expand(args):
     for hist in histories:
         for ev in evs:
             h2 = hist + (ev,)
-            s, bad = build(names, h2)
+            try:
+                s, bad = build(names, h2)
+                bad = bad or s.invariant()
+            except Exception as ex:           # an operation of the directory raised
+                import traceback
+                where = traceback.extract_tb(ex.__traceback__)[-1]
+                s, bad = None, ('directory-operation-raises', '%s: %s at %s:%s' % (type(ex).__name__, ex, where.filename.rsplit('/', 1)[-1], where.name))
             n_trans += 1
-            bad = bad or s.invariant()
             if bad is not None:
                 viol.append((bad[0], bad[1], h2))
                 continue
